@@ -1,6 +1,6 @@
 (* C17 — property theorems only (each closed by `exact <lemma>`, followed by Print Assumptions). *)
 From Coq Require Import List NArith Bool.
-From MW Require Import C16.Model C16.Proofs C17.Proofs C17.ProofsOrder C17.ProofsCount C17.ProofsLive.
+From MW Require Import C16.Model C16.ModelWaitL C16.Proofs C17.Proofs C17.ProofsOrder C17.ProofsCount C17.ProofsLive C17.ProofsWaitL.
 Import ListNotations.
 Open Scope N_scope.
 
@@ -162,3 +162,98 @@ Example C17_wait_example :
   exists j, snd (step s2 RunLoop) = [OReleased 1 j] /\ j_serial j = 1 /\ j_done j = true /\ j_res j = Some 7.
 Proof. exact live_released. Qed.
 Print Assumptions C17_wait_example.
+
+(* ------------------------------------------------------------------------------------------------------------------
+   rpc_qwait with SEVERAL ids (coq/C16/ModelWaitL.v: xstep = Model.step + WaitL c [i1; ..; in] + the continuation of the
+   waitjobs loop at the finish notifier).  "A client is released exactly when ALL the job objects its ids named when the
+   request arrived are finished; it receives their records."
+
+   Every state of the extended machine satisfies Model.v's invariant Good (the loop of waitjobs is a sequence of one-id
+   Waits of the same connection: wait_from_run), so the state invariants proved for Model.v carry over. *)
+Theorem C17_waitl_invariant : forall h, Good (fst (xrun h xinit)).
+Proof. exact x_reachable_good. Qed.
+Print Assumptions C17_waitl_invariant.
+
+Theorem C17_waitl_conservation : forall h x j,
+  let s := fst (xrun h xinit) in
+  getjob (s_jobs s) x = Some j -> j_done j = false ->
+  (in_queues s x + with_workers s x = 1)%nat /\ id_lookup (s_ids s) (j_id j) = Some x.
+Proof. exact x_conservation. Qed.
+Print Assumptions C17_waitl_conservation.
+
+(* one id: exactly Model.v's Wait (state and outputs) *)
+Theorem C17_waitl_one_id_is_wait : forall s k c i,
+  fst (fst (xstep (s, k) (Base (Wait c i)))) = fst (step s (Wait c i)) /\
+  snd (xstep (s, k) (Base (Wait c i))) = snd (step s (Wait c i)).
+Proof. exact xwait_single_agrees. Qed.
+Print Assumptions C17_waitl_one_id_is_wait.
+
+(* in EVERY state: all named jobs finished -> the request returns at once with all records, in request order *)
+Theorem C17_waitl_all_done_immediate : forall s k c is all,
+  is_idle c s = true -> resolve s is = Some all -> all_done s all ->
+  exists s', xstep (s, k) (WaitL c is) = ((s', k_del k c), records s' c all) /\
+             s_jobs s' = s_jobs s /\ s_conns s' = s_conns s /\ s_hub s' = s_hub s.
+Proof. exact waitl_all_done_immediate. Qed.
+Print Assumptions C17_waitl_all_done_immediate.
+
+(* in EVERY state: the client blocks on the first unfinished job OBJECT; the continuation keeps the objects (serials)
+   that follow and the whole request - ids are resolved once, when the request arrives *)
+Theorem C17_waitl_blocks_on_first_unfinished : forall s k c is pre ser post j,
+  is_idle c s = true -> resolve s is = Some (pre ++ ser :: post) -> all_done s pre ->
+  getjob (s_jobs s) ser = Some j -> j_done j = false ->
+  let r := xstep (s, k) (WaitL c is) in
+  snd r = [OBlocked] /\ c_st (get_conn (s_conns (fst (fst r))) c) = BWait ser /\
+  k_get (snd (fst r)) c = Some (ser, (post, pre ++ ser :: post)) /\ s_jobs (fst (fst r)) = s_jobs s.
+Proof. exact waitl_blocks_on_first_unfinished. Qed.
+Print Assumptions C17_waitl_blocks_on_first_unfinished.
+
+(* in EVERY state: what a wait that returns at once hands over is finished *)
+Theorem C17_waitl_immediate_release_finished : forall s k c is c' j,
+  In (OReleased c' j) (snd (xstep (s, k) (WaitL c is))) -> j_done j = true.
+Proof. exact waitl_immediate_release_finished. Qed.
+Print Assumptions C17_waitl_immediate_release_finished.
+
+(* PARTIAL (one link of the chain, in every state): a client whose continuation is ok (every job object of its request is
+   finished, or the one it is blocked on, or still to come) and whose current job is finished, when resumed by the finish
+   notifier, returns finished records only - or blocks again with a continuation that is ok again; and a WaitL that blocks
+   stores a continuation that is ok.
+   NOT PROVED (full statement):
+     Theorem C17_waitl_released_only_finished : forall h o c j,
+       In (OReleased c j) (snd (xstep (xrun h xinit) o)) -> j_done j = true.
+     Theorem C17_waitl_runloop_releases : forall h c ser rest all, let x := xrun h xinit in
+       c_st (get_conn (s_conns (fst x)) c) = BWait ser -> k_get (snd x) c = Some (ser, (rest, all)) ->
+       (forall y, In y all -> is_done (s_jobs (fst x)) y = true) ->
+       (forall y, In y all -> exists j, In (OReleased c j) (snd (xstep x (Base RunLoop))) /\ j_serial j = y /\ j_done j = true)
+       \/ In (ODied c) (snd (xstep x (Base RunLoop))).
+   Missing: that entry_ok of every stored continuation is preserved by every op (needs: job objects are never removed from
+   s_jobs and stay finished once finished, at the granularity of single ops - step_fin_le gives the second half only for
+   finished jobs - and that the continuation of a connection in BWait ser has cur = ser), and the lift of
+   ProofsLive.run_events_track to xrun_events.  For ONE id both are C17_released_only_finished / C17_runloop_releases above
+   (C17_waitl_one_id_is_wait).  On the real code the list statements are checked by the monitor `wait` on every history. *)
+Theorem C17_waitl_continuation_ok_partial : forall c ser rest all s,
+  entry_ok (s_jobs s) (ser, (rest, all)) -> really_done (s_jobs s) ser ->
+  match wait_from c all rest s with
+  | (s', None, o) => forall c' j, In (OReleased c' j) o -> j_done j = true
+  | (s', Some (ser', r'), o) => o = [] /\ entry_ok (s_jobs s') (ser', (r', all))
+  end.
+Proof. exact resume_one_ok. Qed.
+Print Assumptions C17_waitl_continuation_ok_partial.
+
+Theorem C17_waitl_block_stores_ok_continuation : forall s k c is all s1 ser r o,
+  is_idle c s = true -> resolve s is = Some all -> wait_from c all all s = (s1, Some (ser, r), o) ->
+  xstep (s, k) (WaitL c is) = ((s1, k_set k c (ser, (r, all))), [OBlocked]) /\ entry_ok (s_jobs s1) (ser, (r, all)).
+Proof. exact waitl_block_entry_ok. Qed.
+Print Assumptions C17_waitl_block_stores_ok_continuation.
+
+(* Non-vacuity = the regression this guards against: client 5 waits for [n0; n1]; while it is blocked on n0, n1 is killed
+   and re-added (the id n1 now names the unfinished serial 3); n0 finishes; the loop turn releases client 5 with the
+   records of serials 1 and 2. *)
+Example C17_waitl_example :
+  let x := xrun wl_h xinit in
+  c_st (get_conn (s_conns (fst x)) 5) = BWait 1 /\ k_get (snd x) 5 = Some (1, ([2], [1; 2])) /\
+  id_lookup (s_ids (fst x)) (JName 1) = Some 3 /\ is_done (s_jobs (fst x)) 3 = false /\
+  map (fun o => match o with OReleased c j => (c, j_serial j, j_done j) | _ => (0, 0, false) end)
+      (snd (xstep x (Base RunLoop))) = [(5, 1, true); (5, 2, true)] /\
+  c_st (get_conn (s_conns (fst (fst (xstep x (Base RunLoop))))) 5) = Idle.
+Proof. exact wl_example. Qed.
+Print Assumptions C17_waitl_example.
